@@ -5,7 +5,7 @@ import copy
 from sa.cfg import cfg_of
 from sa.contain import containment, local_container
 from sa.program import AnalysisError, const_str, dotted, norm, own_nodes
-from sa.util import (ancestors, assignments_to, compare_parts, enclosing_try_bodies, guards_at, self_calls_in, stmt_text, names_in)
+from sa.util import (ancestors, assignments_to, compare_parts, enclosing_loops, enclosing_try_bodies, guards_at, self_calls_in, stmt_text, names_in)
 from . import shared
 from .roles import CONFIG_ATTR, VIEWS, roles
 
@@ -133,6 +133,24 @@ def run(ctx):
         same = len(set(forms)) == 1
         c.ob("R5", same, preds[1], "active-predicates-agree", "matches(), stateIn and PureSnapshot.matches() use one predicate" if same else
              f"the 'state is active' predicates differ: {forms}", preds[1].node)
+    # ---- R10 stateIn is true exactly when the named state is active ---------------------------------
+    si = p.method("BaseInterpreter", "_is_state_in")
+    rets = [x for x in own_nodes(si.node) if isinstance(x, ast.Return)]
+    pos = [x for x in rets if isinstance(x.value, ast.Constant) and x.value.value is True]
+    other = [x for x in rets if x not in pos and not (x.value is None or (isinstance(x.value, ast.Constant) and not x.value.value))]
+    c.ob("R10", not other, si, "only-true-or-false", "every verdict of stateIn is the constant True or a falsy constant" if not other else
+         f"'{stmt_text(other[0])}' in _is_state_in is neither the positive verdict nor a falsy constant", (other or [si.node])[0])
+    okp = False
+    for x in pos:
+        lp = [l for l in enclosing_loops(si, x) if isinstance(l, ast.For) and "_active_state_nodes" in norm(l.iter)]
+        at = guards_at(si, x)
+        idtest = any(isinstance(a, ast.BoolOp) and isinstance(a.op, ast.Or) and pol and all(".id" in norm(v_) for v_ in a.values) for a, pol in at) or \
+            any(isinstance(a, ast.Compare) and pol and ".id" in norm(a) and isinstance(a.ops[0], ast.Eq) for a, pol in at)
+        if lp and idtest and not any(isinstance(a, ast.Constant) for a, pol in at):
+            okp = True
+    c.ob("R10", okp, si, "true-iff-an-active-id-matches", "stateIn answers True exactly for an active node whose id is (or ends with) the named state" if okp else
+         "_is_state_in has no 'return True' left that is reached from the scan of the active configuration under the id test: stateIn is never "
+         "(or unconditionally) true", si.node)
     # ---- R6 user implementation wins over built-in stateIn ----------------------
     calls = self_calls_in(ev, "_is_state_in")
     c.expect("R6", "built-in stateIn dispatch", len(calls), 1, ev, "the evaluator no longer dispatches the built-in stateIn guard")
